@@ -30,5 +30,23 @@ Theorem c18_cpc_window_words : forall p bytes, p < 22 -> Forall (fun b => b < 25
   (huff_bits p bytes + 11 + 31) / 32 <= (12 * N.of_nat (length bytes) + 11 + 31) / 32.
 Proof. exact window_stream_words. Qed.
 
-Example c18_cpc_example : huff_bits 16 [0; 255; 7] = 22 /\ make_preamble_ints 40 true false true = 8.
-Proof. split; vm_compute; reflexivity. Qed.
+(* the empirical max_serialized_bytes table (translated on this run) has the shape sizes must have: strictly
+   increasing, each entry less than twice its predecessor (the streams double with K, the header does not), at
+   most 1.5 K bytes (12 bits per window byte), and at lg_k = 19 within 0.1 % of the 0.6 K rule used beyond it *)
+Theorem c18_cpc_max_size_table_shape :
+  length Gen.GenCpc.EMPIRICAL_MAX_SIZE_BYTES = 16%nat /\
+  (forall i, i < 15 -> size_entry i < size_entry (i + 1) < 2 * size_entry i) /\
+  (forall i, i < 16 -> 1 <= size_entry i /\ 8 * size_entry i <= 12 * 2 ^ (i + 4)) /\
+  3 * 2 ^ 19 <= 5 * size_entry 15 /\ 1000 * (5 * size_entry 15 - 3 * 2 ^ 19) <= 3 * 2 ^ 19.
+Proof. exact max_size_table_shape. Qed.
+
+(* max_serialized_bytes (table, then the binary64 product 0.6 * K truncated, plus 40) is defined, strictly
+   increasing and less than doubling over the whole range lg_k 4..=26 *)
+Theorem c18_cpc_max_serialized_bytes_monotone : forall l, 4 <= l <= 25 ->
+  exists a b, max_serialized_bytes l = Ok a /\ max_serialized_bytes (l + 1) = Ok b /\ a < b < 2 * a.
+Proof. exact max_serialized_bytes_monotone. Qed.
+
+Example c18_cpc_example :
+  huff_bits 16 [0; 255; 7] = 22 /\ make_preamble_ints 40 true false true = 8 /\
+  max_serialized_bytes 14 = Ok 10008 /\ max_serialized_bytes 20 = Ok 629185.
+Proof. repeat split; vm_compute; reflexivity. Qed.
